@@ -1,1 +1,609 @@
-From AUC Require Import Prelude.PyDict C16.Model C16.Spec.
+(* C16 — the concrete two-dict body refines the folded-key map. *)
+From Coq Require Import List Bool Arith Lia Permutation.
+From AUC Require Import Prelude.PyDict C16.Model C16.Spec C16.Sim.
+Import ListNotations.
+Set Implicit Arguments.
+
+Section BodyProofs.
+  Variable K : Type.
+  Variable keqb : K -> K -> bool.
+  Hypothesis keqb_spec : forall a b, reflect (a = b) (keqb a b).
+  Variable lower : K -> K.
+  Variable V : Type.
+  Variable veqb : V -> V -> bool.
+  Hypothesis veqb_spec : forall a b, reflect (a = b) (veqb a b).
+
+  Local Notation get := (dget keqb).
+  Local Notation KS := (keqb_spec).
+
+  (* lookup through the case map, then the data dict *)
+  Definition plookup (d : dict K V) (cm : dict K K) (lk : K) : option (K * V) :=
+    match get cm lk with
+    | Some k => match get d k with Some v => Some (k, v) | None => None end
+    | None => None
+    end.
+  Definition blookup (b : body K V) := plookup (bdata b) (bcmap b).
+
+  (* later-wins by folded key over an item list *)
+  Definition LW (items : list (K * V)) (lk : K) : option (K * V) :=
+    dlast keqb (map (fun kv => (lower (fst kv), kv)) items) lk.
+
+  Record Inv (b : body K V) : Prop := {
+    inv_nd_d : NoDup (dkeys (bdata b));
+    inv_nd_c : NoDup (dkeys (bcmap b));
+    inv_c : forall lk k, get (bcmap b) lk = Some k -> lower k = lk /\ In k (dkeys (bdata b));
+    inv_d : forall k, In k (dkeys (bdata b)) -> get (bcmap b) (lower k) = Some k
+  }.
+  Record SInv (s : smap K V) : Prop := {
+    sinv_nd : NoDup (dkeys s);
+    sinv_k : forall lk e, get s lk = Some e -> lower (fst e) = lk
+  }.
+  Definition Rel (b : body K V) (s : smap K V) : Prop :=
+    Inv b /\ SInv s /\ forall lk, blookup b lk = get s lk.
+
+  (* ---------------------------------------------------------------- boolean reflection *)
+  Lemma existsb_keqb x l : existsb (keqb x) l = true <-> In x l.
+  Proof.
+    rewrite existsb_exists. split.
+    - intros [y [Hy He]]. destruct (KS x y); congruence.
+    - intros H. exists x. split; [exact H|]. destruct (KS x x); congruence.
+  Qed.
+
+  Lemma nodupb_NoDup l : nodupb keqb l = true -> NoDup l.
+  Proof.
+    induction l as [|x l IH]; cbn; [constructor|].
+    rewrite andb_true_iff, negb_true_iff. intros [Hn Hr]. constructor; [|auto].
+    intros Hin. apply existsb_keqb in Hin. congruence.
+  Qed.
+
+  Lemma NoDup_nodupb l : NoDup l -> nodupb keqb l = true.
+  Proof.
+    induction 1 as [|x l Hn Hnd IH]; cbn; [reflexivity|].
+    rewrite IH, andb_true_r, negb_true_iff.
+    destruct (existsb (keqb x) l) eqn:E; [|reflexivity]. apply existsb_keqb in E. contradiction.
+  Qed.
+
+  (* ---------------------------------------------------------------- _unique_case_data *)
+  Lemma rebuild_ok (d : dict K V) : forall ks (acc : dict K V),
+    NoDup (dkeys acc ++ ks) -> (forall k, In k ks -> In k (dkeys d)) ->
+    exists d', rebuild keqb d ks acc = Some d' /\ dkeys d' = dkeys acc ++ ks /\
+      (forall k, In k ks -> get d' k = get d k) /\
+      (forall k, ~ In k ks -> get d' k = get acc k).
+  Proof.
+    induction ks as [|k r IH]; intros acc Hnd Hin; cbn.
+    - exists acc. rewrite app_nil_r. repeat split; auto. intros k [].
+    - assert (Hk : In k (dkeys d)) by (apply Hin; now left).
+      apply (In_dkeys_dget keqb KS) in Hk. destruct (get d k) as [v|] eqn:Ed; [|congruence].
+      assert (Hnk : get acc k = None).
+      { apply (dget_None_notin keqb KS). intros Hi. apply NoDup_remove_2 in Hnd. apply Hnd.
+        apply in_app_iff. now left. }
+      rewrite (dset_absent keqb acc k v Hnk).
+      destruct (IH (acc ++ [(k, v)])) as [d' [Hr [Hkeys [Hin' Hout]]]].
+      + unfold dkeys. rewrite map_app, <- app_assoc. exact Hnd.
+      + intros k0 Hk0. apply Hin. now right.
+      + exists d'. split; [exact Hr|]. split.
+        { rewrite Hkeys. unfold dkeys. rewrite map_app, <- app_assoc. reflexivity. }
+        assert (Hkr : ~ In k r).
+        { intros Hi. apply NoDup_remove_2 in Hnd. apply Hnd. apply in_app_iff. now right. }
+        split.
+        * intros k0 [<-|Hk0]; [|now apply Hin'].
+          rewrite (Hout _ Hkr), (dget_app keqb), Hnk. cbn.
+          destruct (KS k k); congruence.
+        * intros k0 Hk0. rewrite Hout by (intros Hi; apply Hk0; now right).
+          rewrite (dget_app keqb). destruct (get acc k0); [reflexivity|]. cbn.
+          destruct (KS k k0) as [->|Hne]; [|reflexivity]. exfalso. apply Hk0. now left.
+  Qed.
+
+  Lemma cm_vals_nodup (cm : dict K K) :
+    NoDup (dkeys cm) -> (forall lk k, get cm lk = Some k -> lower k = lk) ->
+    NoDup (map snd cm).
+  Proof.
+    intros Hnd Hc. apply NoDup_map_inj_on; [|now apply NoDup_pairs].
+    intros [lk1 k1] [lk2 k2] H1 H2. cbn. intros ->.
+    apply (In_dget keqb KS _ _ _ Hnd) in H1. apply (In_dget keqb KS _ _ _ Hnd) in H2.
+    apply Hc in H1. apply Hc in H2. congruence.
+  Qed.
+
+  Lemma cm_val_in (cm : dict K K) k :
+    NoDup (dkeys cm) -> (In k (map snd cm) <-> exists lk, get cm lk = Some k).
+  Proof.
+    intros Hnd. rewrite in_map_iff. split.
+    - intros [[lk k'] [Hs Hi]]. cbn in Hs. subst. exists lk. now apply (In_dget keqb KS).
+    - intros [lk Hg]. exists (lk, k). split; [reflexivity | now apply (dget_In keqb KS)].
+  Qed.
+
+  Lemma mk_ok (d : dict K V) (cm : dict K K) :
+    NoDup (dkeys d) -> NoDup (dkeys cm) ->
+    (forall lk k, get cm lk = Some k -> lower k = lk /\ In k (dkeys d)) ->
+    exists b, mk keqb d cm = Some b /\ Inv b /\ bcmap b = cm /\
+              (forall lk, blookup b lk = plookup d cm lk).
+  Proof.
+    intros Hd Hc Hcm.
+    assert (Hvn : NoDup (map snd cm)) by (apply cm_vals_nodup; [exact Hc | intros; now apply Hcm]).
+    assert (Hvi : incl (map snd cm) (dkeys d)).
+    { intros k Hk. apply cm_val_in in Hk; [|exact Hc]. destruct Hk as [lk Hk]. now apply Hcm in Hk. }
+    unfold mk, unique_case. destruct (Nat.eqb (length cm) (length d)) eqn:El.
+    - apply Nat.eqb_eq in El. eexists. split; [reflexivity|]. split; [|split; [reflexivity|reflexivity]].
+      constructor; cbn [bdata bcmap]; auto. intros k Hk.
+      assert (Hrev : incl (dkeys d) (map snd cm)).
+      { apply NoDup_length_incl; [exact Hvn| |exact Hvi]. unfold dkeys. rewrite !map_length. lia. }
+      apply Hrev in Hk. apply cm_val_in in Hk; [|exact Hc]. destruct Hk as [lk Hk].
+      destruct (Hcm _ _ Hk) as [<- _]. exact Hk.
+    - destruct (@rebuild_ok d (map snd cm) []) as [d' [Hr [Hkeys [Hin Hout]]]]; [exact Hvn | exact Hvi |].
+      rewrite Hr. eexists. split; [reflexivity|]. cbn [dkeys map app] in Hkeys. split; [|split; [reflexivity|]].
+      + constructor; cbn [bdata bcmap]; rewrite ?Hkeys; auto.
+        * intros lk k Hg. split; [now apply Hcm in Hg|]. apply cm_val_in; [exact Hc|]. now exists lk.
+        * intros k Hk. apply cm_val_in in Hk; [|exact Hc]. destruct Hk as [lk Hk].
+          destruct (Hcm _ _ Hk) as [<- _]. exact Hk.
+      + intros lk. unfold blookup, plookup. cbn. destruct (get cm lk) as [k|] eqn:E; [|reflexivity].
+        rewrite Hin; [reflexivity|]. apply cm_val_in; [exact Hc|]. now exists lk.
+  Qed.
+
+  (* ---------------------------------------------------------------- spec-side facts *)
+  Lemma s_writes_get (s : smap K V) items lk :
+    get (s_writes keqb lower s items) lk =
+    match LW items lk with Some e => Some e | None => get s lk end.
+  Proof.
+    revert s. induction items as [|[k v] r IH]; intros s; [reflexivity|].
+    change (s_writes keqb lower s ((k, v) :: r))
+      with (s_writes keqb lower (s_write keqb lower s k v) r).
+    rewrite IH. unfold LW. cbn. fold (LW r lk).
+    destruct (LW r lk); [reflexivity|].
+    unfold s_write. rewrite (dget_dset keqb KS). cbn. destruct (keqb (lower k) lk); reflexivity.
+  Qed.
+
+  Lemma SInv_nil : SInv [].
+  Proof. constructor; [constructor | intros lk e H; discriminate]. Qed.
+
+  Lemma SInv_write s k v : SInv s -> SInv (s_write keqb lower s k v).
+  Proof.
+    intros [Hn Hk]. constructor.
+    - now apply (NoDup_dset keqb KS).
+    - intros lk e. unfold s_write. rewrite (dget_dset keqb KS).
+      destruct (KS (lower k) lk) as [<-|Hne]; [|apply Hk].
+      intros H; inversion H; reflexivity.
+  Qed.
+
+  Lemma SInv_writes items : forall s, SInv s -> SInv (s_writes keqb lower s items).
+  Proof.
+    induction items as [|[k v] r IH]; intros s Hs; [exact Hs|].
+    change (s_writes keqb lower s ((k, v) :: r))
+      with (s_writes keqb lower (s_write keqb lower s k v) r).
+    apply IH. now apply SInv_write.
+  Qed.
+
+  Lemma SInv_del s lk : SInv s -> SInv (ddel keqb s lk).
+  Proof.
+    intros [Hn Hk]. constructor.
+    - now apply (NoDup_ddel keqb).
+    - intros lk' e. rewrite (dget_ddel keqb KS) by exact Hn.
+      destruct (keqb lk lk'); [discriminate | apply Hk].
+  Qed.
+
+  Lemma LW_Some items lk e : LW items lk = Some e -> In e items /\ lower (fst e) = lk.
+  Proof.
+    unfold LW. intros H. apply (dlast_In keqb KS) in H. apply in_map_iff in H as [kv [Heq Hin]].
+    inversion Heq; subst. auto.
+  Qed.
+
+  Lemma LW_None items lk : LW items lk = None -> forall kv, In kv items -> lower (fst kv) <> lk.
+  Proof.
+    unfold LW. intros H kv Hin Hl. apply (dlast_None keqb KS) in H. apply H.
+    rewrite map_map. cbn. apply in_map_iff. exists kv. auto.
+  Qed.
+
+  Lemma build_cmap_get (d : dict K V) lk :
+    get (build_cmap keqb lower d) lk = match LW d lk with Some e => Some (fst e) | None => None end.
+  Proof.
+    unfold build_cmap. rewrite (fold_dset_dmerge keqb lower (fun k => k)).
+    rewrite (dget_dmerge keqb KS). cbn. unfold dkeys. rewrite map_map.
+    rewrite (dlast_map_val keqb (fun kv : K * V => lower (fst kv)) (@fst K V)).
+    unfold LW. destruct (dlast keqb _ lk); reflexivity.
+  Qed.
+
+  Lemma build_cmap_nodup (d : dict K V) : NoDup (dkeys (build_cmap keqb lower d)).
+  Proof.
+    unfold build_cmap. rewrite (fold_dset_dmerge keqb lower (fun k => k)).
+    apply (NoDup_dmerge keqb KS). constructor.
+  Qed.
+
+  Lemma init_ok items : is_dict keqb items = true ->
+    exists b, b_init keqb lower items = Some b /\ Inv b /\ forall lk, blookup b lk = LW items lk.
+  Proof.
+    intros Hd. apply nodupb_NoDup in Hd. unfold b_init.
+    rewrite (dmerge_dict keqb KS [] items) by exact Hd. cbn [app].
+    destruct (@mk_ok items (build_cmap keqb lower items)) as [b [Hm [Hi [Hc Hl]]]].
+    - exact Hd.
+    - apply build_cmap_nodup.
+    - intros lk k. rewrite build_cmap_get. destruct (LW items lk) eqn:E; [|discriminate].
+      intros H; inversion H; subst. apply LW_Some in E as [Hin Hlk]. split; [exact Hlk|].
+      now apply (in_map fst) in Hin.
+    - exists b. split; [exact Hm|]. split; [exact Hi|]. intros lk. rewrite Hl. unfold plookup.
+      rewrite build_cmap_get. destruct (LW items lk) as [[k v]|] eqn:E; [|reflexivity]. cbn.
+      apply LW_Some in E as [Hin _]. now rewrite (In_dget keqb KS _ _ _ Hd Hin).
+  Qed.
+
+  Lemma H_init_body items : is_dict keqb items = true ->
+    opt_rel Rel (b_init keqb lower items) (Some (s_writes keqb lower [] items)).
+  Proof.
+    intros Hd. destruct (init_ok items Hd) as [b [-> [Hi Hl]]]. cbn.
+    split; [exact Hi|]. split; [apply SInv_writes, SInv_nil|].
+    intros lk. rewrite Hl, s_writes_get. cbn. destruct (LW items lk); reflexivity.
+  Qed.
+
+  (* ---------------------------------------------------------------- __setitem__ *)
+  Lemma set_core b (d1 : dict K V) k v :
+    Inv b -> NoDup (dkeys d1) ->
+    (forall x, In x (dkeys d1) -> In x (dkeys (bdata b))) ->
+    (forall x, lower x <> lower k -> get d1 x = get (bdata b) x) ->
+    (forall x, In x (dkeys d1) -> lower x = lower k -> x = k) ->
+    let b' := {| bdata := dset keqb d1 k v; bcmap := dset keqb (bcmap b) (lower k) k |} in
+    Inv b' /\ forall lk, blookup b' lk = if keqb (lower k) lk then Some (k, v) else blookup b lk.
+  Proof.
+    intros [Hnd Hnc Hc Hd] Hn1 Hsub Hsame Huniq b'. split.
+    - constructor; cbn [bdata bcmap b'].
+      + now apply (NoDup_dset keqb KS).
+      + now apply (NoDup_dset keqb KS).
+      + intros lk k'. rewrite (dget_dset keqb KS). destruct (KS (lower k) lk) as [<-|Hne].
+        * intros H; inversion H; subst. split; [reflexivity|]. apply (In_dkeys_dset keqb KS). now left.
+        * intros Hg. destruct (Hc _ _ Hg) as [Hl Hin]. split; [exact Hl|].
+          apply (In_dkeys_dset keqb KS). right. apply (In_dkeys_dget keqb KS).
+          rewrite Hsame by congruence. now apply (In_dkeys_dget keqb KS).
+      + intros x Hx. apply (In_dkeys_dset keqb KS) in Hx. rewrite (dget_dset keqb KS).
+        destruct Hx as [->|Hx]; [destruct (KS (lower k) (lower k)); congruence|].
+        destruct (KS (lower k) (lower x)) as [He|Hne].
+        * f_equal. symmetry. apply Huniq; [exact Hx | now symmetry].
+        * apply Hd. now apply Hsub.
+    - intros lk. unfold blookup, plookup. cbn [bdata bcmap b']. rewrite (dget_dset keqb KS).
+      destruct (KS (lower k) lk) as [<-|Hne].
+      + rewrite (dget_dset keqb KS). destruct (KS k k); [reflexivity | congruence].
+      + destruct (get (bcmap b) lk) as [k'|] eqn:E; [|reflexivity].
+        destruct (Hc _ _ E) as [Hl _]. rewrite (dget_dset keqb KS).
+        destruct (KS k k') as [->|Hkk]; [congruence|].
+        rewrite Hsame by congruence. reflexivity.
+  Qed.
+
+  Lemma set_ok b k v : Inv b ->
+    exists b', b_set keqb lower b k v = Some b' /\ Inv b' /\
+      forall lk, blookup b' lk = if keqb (lower k) lk then Some (k, v) else blookup b lk.
+  Proof.
+    intros Hi. pose proof Hi as [Hnd Hnc Hc Hd]. unfold b_set.
+    destruct (get (bcmap b) (lower k)) as [k0|] eqn:E.
+    - destruct (Hc _ _ E) as [Hl0 Hin0]. destruct (KS k0 k) as [->|Hne].
+      + eexists. split; [reflexivity|]. apply set_core; auto.
+        intros x Hx Hl. apply Hd in Hx. rewrite Hl in Hx. congruence.
+      + unfold del_key, dhas. apply (In_dkeys_dget keqb KS) in Hin0.
+        destruct (get (bdata b) k0) eqn:E0; [|congruence].
+        eexists. split; [reflexivity|]. apply set_core; auto.
+        * now apply (NoDup_ddel keqb).
+        * intros x Hx. now apply (dkeys_ddel_incl keqb) in Hx.
+        * intros x Hx. rewrite (dget_ddel keqb KS) by exact Hnd.
+          destruct (KS k0 x) as [->|]; [congruence | reflexivity].
+        * intros x Hx Hl. apply (In_dkeys_ddel keqb KS) in Hx; [|exact Hnd]. destruct Hx as [Hx0 Hx].
+          apply Hd in Hx. rewrite Hl in Hx. congruence.
+    - eexists. split; [reflexivity|]. apply set_core; auto.
+      intros x Hx Hl. apply Hd in Hx. rewrite Hl in Hx. congruence.
+  Qed.
+
+  Lemma H_set_body b s k v : Rel b s ->
+    opt_rel Rel (b_set keqb lower b k v) (Some (s_write keqb lower s k v)).
+  Proof.
+    intros [Hi [Hs Hl]]. destruct (set_ok k v Hi) as [b' [-> [Hi' Hl']]]. cbn.
+    split; [exact Hi'|]. split; [now apply SInv_write|].
+    intros lk. rewrite Hl'. unfold s_write. rewrite (dget_dset keqb KS), Hl. reflexivity.
+  Qed.
+
+  (* ---------------------------------------------------------------- __delitem__ / del_lower *)
+  Lemma H_del_lower_body b s lk : Rel b s ->
+    opt_rel Rel (b_del_lower keqb b lk) (s_del_lower keqb s lk).
+  Proof.
+    intros [Hi [Hs Hl]]. pose proof Hi as [Hnd Hnc Hc Hd]. pose proof Hs as [Hsn Hsk].
+    unfold b_del_lower, s_del_lower, dhas. specialize (Hl lk) as Hlk.
+    unfold blookup, plookup in Hlk.
+    destruct (get (bcmap b) lk) as [k0|] eqn:E.
+    - destruct (Hc _ _ E) as [Hl0 Hin0]. apply (In_dkeys_dget keqb KS) in Hin0.
+      unfold del_key, dhas. destruct (get (bdata b) k0) as [v0|] eqn:E0; [|congruence].
+      rewrite <- Hlk. cbn. split; [|split; [now apply SInv_del|]].
+      + constructor; cbn [bdata bcmap].
+        * now apply (NoDup_ddel keqb).
+        * now apply (NoDup_ddel keqb).
+        * intros lk' k'. rewrite (dget_ddel keqb KS) by exact Hnc.
+          destruct (KS lk lk') as [->|Hne]; [discriminate|]. intros Hg.
+          destruct (Hc _ _ Hg) as [Hl' Hin']. split; [exact Hl'|].
+          apply (In_dkeys_ddel keqb KS); [exact Hnd|]. split; [congruence | exact Hin'].
+        * intros x Hx. apply (In_dkeys_ddel keqb KS) in Hx; [|exact Hnd]. destruct Hx as [Hx0 Hx].
+          rewrite (dget_ddel keqb KS) by exact Hnc. apply Hd in Hx.
+          destruct (KS lk (lower x)) as [->|Hne]; [congruence | exact Hx].
+      + intros lk'. unfold blookup, plookup. cbn [bdata bcmap].
+        rewrite !(dget_ddel keqb KS) by assumption.
+        destruct (KS lk lk') as [->|Hne]; [reflexivity|]. rewrite <- Hl. unfold blookup, plookup.
+        destruct (get (bcmap b) lk') as [k'|] eqn:E'; [|reflexivity].
+        destruct (Hc _ _ E') as [Hl' _]. rewrite (dget_ddel keqb KS) by exact Hnd.
+        destruct (KS k0 k') as [->|]; [congruence | reflexivity].
+    - rewrite <- Hlk. exact I.
+  Qed.
+
+  Lemma H_get_lower_body b s lk : Rel b s -> b_get_lower keqb b lk = s_get_lower keqb s lk.
+  Proof.
+    intros [Hi [Hs Hl]]. unfold b_get_lower, s_get_lower. rewrite <- Hl. unfold blookup, plookup.
+    destruct (get (bcmap b) lk); [|reflexivity]. destruct (get (bdata b) k); reflexivity.
+  Qed.
+
+  (* ---------------------------------------------------------------- combine *)
+  Lemma smap_self s : SInv s -> map (fun e => (lower (fst e), e)) (map snd s) = s.
+  Proof.
+    intros [Hn Hk]. rewrite map_map. rewrite <- (map_id s) at 2. apply map_ext_in.
+    intros [lk e] Hin. cbn. f_equal. apply Hk. now apply (In_dget keqb KS).
+  Qed.
+
+  Lemma LW_smap s lk : SInv s -> LW (map snd s) lk = get s lk.
+  Proof.
+    intros Hs. unfold LW. rewrite smap_self by exact Hs. apply (dlast_dget keqb KS). apply Hs.
+  Qed.
+
+  Lemma H_combine_body a1 a2 b1 b2 : Rel a1 a2 -> Rel b1 b2 ->
+    opt_rel Rel (b_combine keqb a1 b1) (Some (s_writes keqb lower a2 (map snd b2))).
+  Proof.
+    intros [Hia [Hsa Hla]] [Hib [Hsb Hlb]].
+    pose proof Hia as [Hnda Hnca Hca Hda]. pose proof Hib as [Hndb Hncb Hcb Hdb].
+    unfold b_combine.
+    assert (Gd : forall k, get (dmerge keqb (bdata a1) (bdata b1)) k =
+                           match get (bdata b1) k with Some v => Some v | None => get (bdata a1) k end).
+    { intros k. rewrite (dget_dmerge keqb KS), (dlast_dget keqb KS) by exact Hndb. reflexivity. }
+    assert (Gc : forall k, get (dmerge keqb (bcmap a1) (bcmap b1)) k =
+                           match get (bcmap b1) k with Some v => Some v | None => get (bcmap a1) k end).
+    { intros k. rewrite (dget_dmerge keqb KS), (dlast_dget keqb KS) by exact Hncb. reflexivity. }
+    destruct (@mk_ok (dmerge keqb (bdata a1) (bdata b1)) (dmerge keqb (bcmap a1) (bcmap b1)))
+      as [b [Hm [Hi [Hc Hl]]]].
+    - now apply (NoDup_dmerge keqb KS).
+    - now apply (NoDup_dmerge keqb KS).
+    - intros lk k. rewrite Gc. destruct (get (bcmap b1) lk) eqn:E.
+      + intros H; inversion H; subst. destruct (Hcb _ _ E) as [Hl' Hin]. split; [exact Hl'|].
+        apply (In_dkeys_dmerge keqb KS). right. exact Hin.
+      + intros Hg. destruct (Hca _ _ Hg) as [Hl' Hin]. split; [exact Hl'|].
+        apply (In_dkeys_dmerge keqb KS). now left.
+    - rewrite Hm. cbn. split; [exact Hi|]. split; [now apply SInv_writes|].
+      intros lk. rewrite Hl, s_writes_get, LW_smap by exact Hsb. rewrite <- Hlb, <- Hla.
+      unfold blookup, plookup. rewrite Gc.
+      destruct (get (bcmap b1) lk) as [k|] eqn:E.
+      + destruct (Hcb _ _ E) as [_ Hin]. rewrite Gd. apply (In_dkeys_dget keqb KS) in Hin.
+        destruct (get (bdata b1) k); [reflexivity | congruence].
+      + destruct (get (bcmap a1) lk) as [k|] eqn:Ea; [|reflexivity]. rewrite Gd.
+        destruct (get (bdata b1) k) eqn:Eb; [|reflexivity]. exfalso.
+        assert (Hin : In k (dkeys (bdata b1))) by (apply (In_dkeys_dget keqb KS); congruence).
+        apply Hdb in Hin. destruct (Hca _ _ Ea) as [Hl' _]. rewrite Hl' in Hin. congruence.
+  Qed.
+
+  (* ---------------------------------------------------------------- combine_lower_dict *)
+  Lemma H_combine_lower_body a1 a2 items : Rel a1 a2 ->
+    is_dict keqb items = true -> all_lower keqb lower items = true ->
+    opt_rel Rel (b_combine_lower keqb a1 items) (Some (s_writes keqb lower a2 items)).
+  Proof.
+    intros [Hia [Hsa Hla]] Hd Hlow. apply nodupb_NoDup in Hd.
+    pose proof Hia as [Hnda Hnca Hca Hda].
+    assert (Hlw : forall kv, In kv items -> lower (fst kv) = fst kv).
+    { intros kv Hin. unfold all_lower in Hlow. rewrite forallb_forall in Hlow.
+      specialize (Hlow _ Hin). destruct (KS (lower (fst kv)) (fst kv)); congruence. }
+    unfold b_combine_lower. rewrite (dmerge_dict keqb KS [] items) by exact Hd. cbn [app].
+    assert (HLW : forall lk, LW items lk = match get items lk with Some v => Some (lk, v) | None => None end).
+    { intros lk. unfold LW.
+      rewrite (map_ext_in _ (fun kv => (fst kv, kv))) by (intros kv Hin; now rewrite Hlw).
+      rewrite (dlast_dget keqb KS).
+      - apply (dget_map_self keqb KS).
+      - rewrite map_map. cbn. exact Hd. }
+    assert (Gd : forall k, get (dmerge keqb (bdata a1) items) k =
+                           match get items k with Some v => Some v | None => get (bdata a1) k end).
+    { intros k. rewrite (dget_dmerge keqb KS), (dlast_dget keqb KS) by exact Hd. reflexivity. }
+    assert (Gc : forall lk, get (dmerge keqb (bcmap a1) (map (fun kv => (fst kv, fst kv)) items)) lk =
+                            match get items lk with Some _ => Some lk | None => get (bcmap a1) lk end).
+    { intros lk. rewrite (dget_dmerge keqb KS).
+      rewrite (dlast_map_val keqb (@fst K V) (@fst K V)).
+      rewrite (dlast_dget keqb KS) by (rewrite map_map; cbn; exact Hd).
+      rewrite (dget_map_self keqb KS). destruct (get items lk); reflexivity. }
+    destruct (@mk_ok (dmerge keqb (bdata a1) items)
+                     (dmerge keqb (bcmap a1) (map (fun kv => (fst kv, fst kv)) items)))
+      as [b [Hm [Hi [Hc Hl]]]].
+    - now apply (NoDup_dmerge keqb KS).
+    - now apply (NoDup_dmerge keqb KS).
+    - intros lk k. rewrite Gc. destruct (get items lk) as [v|] eqn:E.
+      + intros H; inversion H; subst. pose proof (dget_In keqb KS _ _ E) as Hin.
+        split; [exact (Hlw _ Hin)|]. apply (In_dkeys_dmerge keqb KS). right.
+        now apply (in_map fst) in Hin.
+      + intros Hg. destruct (Hca _ _ Hg) as [Hl' Hin]. split; [exact Hl'|].
+        apply (In_dkeys_dmerge keqb KS). now left.
+    - rewrite Hm. cbn. split; [exact Hi|]. split; [now apply SInv_writes|].
+      intros lk. rewrite Hl, s_writes_get, HLW, <- Hla. unfold blookup, plookup. rewrite Gc.
+      destruct (get items lk) as [v|] eqn:E.
+      + rewrite Gd, E. reflexivity.
+      + destruct (get (bcmap a1) lk) as [k|] eqn:Ea; [|reflexivity]. rewrite Gd.
+        destruct (get items k) as [v'|] eqn:Ek; [|reflexivity]. exfalso.
+        pose proof (dget_In keqb KS _ _ Ek) as Hin. apply Hlw in Hin. cbn in Hin.
+        destruct (Hca _ _ Ea) as [Hl' _]. congruence.
+  Qed.
+
+  (* ---------------------------------------------------------------- CaseInsensitiveDict(other) *)
+  Lemma LW_self b lk : Inv b -> LW (bdata b) lk = blookup b lk.
+  Proof.
+    intros [Hnd Hnc Hc Hd]. destruct (LW (bdata b) lk) as [[k v]|] eqn:E.
+    - apply LW_Some in E as [Hin Hl]. cbn in Hl. subst lk. unfold blookup, plookup.
+      rewrite (Hd k) by (now apply (in_map fst) in Hin).
+      now rewrite (In_dget keqb KS _ _ _ Hnd Hin).
+    - unfold blookup, plookup. destruct (get (bcmap b) lk) as [k|] eqn:Ec; [|reflexivity].
+      destruct (Hc _ _ Ec) as [Hl Hin]. destruct (get (bdata b) k) as [v|] eqn:Ed; [|reflexivity].
+      exfalso. apply (dget_In keqb KS) in Ed. exact (@LW_None _ _ E _ Ed Hl).
+  Qed.
+
+  Lemma items_via_getitem_self b : Inv b ->
+    items_via_getitem (b_get keqb lower b) (dkeys (bdata b)) = Some (bdata b).
+  Proof.
+    intros [Hnd Hnc Hc Hd].
+    assert (G : forall l : list (K * V),
+               (forall k v, In (k, v) l -> b_get keqb lower b k = Some v) ->
+               items_via_getitem (b_get keqb lower b) (map fst l) = Some l).
+    { induction l as [|[k v] r IH]; intros H; cbn; [reflexivity|].
+      rewrite (H k v) by now left. rewrite IH; [reflexivity|]. intros k' v' Hin. apply H. now right. }
+    apply G. intros k v Hin. unfold b_get, b_get_lower.
+    rewrite (Hd k) by (now apply (in_map fst) in Hin). now apply (In_dget keqb KS).
+  Qed.
+
+  Lemma H_from_body b s : Rel b s -> opt_rel Rel (b_from keqb lower b) (Some s).
+  Proof.
+    intros [Hi [Hs Hl]]. unfold b_from. rewrite items_via_getitem_self by exact Hi.
+    destruct (@init_ok (bdata b)) as [b' [-> [Hi' Hl']]].
+    - apply NoDup_nodupb. apply Hi.
+    - cbn. split; [exact Hi'|]. split; [exact Hs|]. intros lk. now rewrite Hl', LW_self, Hl.
+  Qed.
+
+  (* ---------------------------------------------------------------- len / iteration *)
+  Lemma NoDup_lower_keys b : Inv b -> NoDup (map lower (dkeys (bdata b))).
+  Proof.
+    intros [Hnd Hnc Hc Hd]. apply NoDup_map_inj_on; [|exact Hnd].
+    intros x y Hx Hy He. apply Hd in Hx. apply Hd in Hy. rewrite He in Hx. congruence.
+  Qed.
+
+  Lemma blookup_Some_iff b lk : Inv b -> (blookup b lk <> None <-> get (bcmap b) lk <> None).
+  Proof.
+    intros [Hnd Hnc Hc Hd]. unfold blookup, plookup.
+    destruct (get (bcmap b) lk) as [k|] eqn:E; [|tauto].
+    destruct (Hc _ _ E) as [_ Hin]. apply (In_dkeys_dget keqb KS) in Hin.
+    destruct (get (bdata b) k); [split; congruence | congruence].
+  Qed.
+
+  Lemma H_len_body b s : Rel b s -> b_len b = length s.
+  Proof.
+    intros [Hi [Hs Hl]]. pose proof Hi as [Hnd Hnc Hc Hd]. unfold b_len.
+    assert (P1 : Permutation (map lower (dkeys (bdata b))) (dkeys (bcmap b))).
+    { apply NoDup_Permutation; [now apply NoDup_lower_keys | exact Hnc |]. intros lk. split.
+      - intros Hin. apply in_map_iff in Hin as [x [<- Hx]]. apply (In_dkeys_dget keqb KS).
+        rewrite (Hd _ Hx). congruence.
+      - intros Hin. apply (In_dkeys_dget keqb KS) in Hin.
+        destruct (get (bcmap b) lk) as [k|] eqn:E; [|congruence].
+        destruct (Hc _ _ E) as [<- Hk]. now apply in_map. }
+    assert (P2 : Permutation (dkeys (bcmap b)) (dkeys s)).
+    { apply NoDup_Permutation; [exact Hnc | apply Hs |]. intros lk.
+      rewrite !(In_dkeys_dget keqb KS), <- Hl. symmetry. now apply blookup_Some_iff. }
+    apply Permutation_length in P1. apply Permutation_length in P2.
+    unfold dkeys in *. rewrite !map_length in *. congruence.
+  Qed.
+
+  Lemma H_iter_body b s : Rel b s -> Permutation (b_iter b) (map (fun e => fst (snd e)) s).
+  Proof.
+    intros [Hi [Hs Hl]]. pose proof Hi as [Hnd Hnc Hc Hd]. pose proof Hs as [Hsn Hsk].
+    unfold b_iter. apply NoDup_Permutation; [exact Hnd | |].
+    - apply NoDup_map_inj_on; [|now apply NoDup_pairs].
+      intros [lk1 e1] [lk2 e2] H1 H2. cbn. intros He.
+      apply (In_dget keqb KS _ _ _ Hsn) in H1. apply (In_dget keqb KS _ _ _ Hsn) in H2.
+      pose proof (Hsk _ _ H1) as L1. pose proof (Hsk _ _ H2) as L2.
+      assert (lk1 = lk2) by congruence. subst. congruence.
+    - intros k. split.
+      + intros Hin. pose proof (Hd _ Hin) as Hcm. apply (In_dkeys_dget keqb KS) in Hin.
+        destruct (get (bdata b) k) as [v|] eqn:E; [|congruence].
+        assert (Hb : blookup b (lower k) = Some (k, v)) by (unfold blookup, plookup; now rewrite Hcm, E).
+        rewrite Hl in Hb. apply (dget_In keqb KS) in Hb. apply in_map_iff.
+        exists (lower k, (k, v)). split; [reflexivity | exact Hb].
+      + intros Hin. apply in_map_iff in Hin as [[lk [k' v]] [Hk Hin]]. cbn in Hk. subst k'.
+        apply (In_dget keqb KS _ _ _ Hsn) in Hin. rewrite <- Hl in Hin.
+        unfold blookup, plookup in Hin. destruct (get (bcmap b) lk) as [k0|]; [|discriminate].
+        destruct (get (bdata b) k0) as [v0|] eqn:E; [|discriminate]. inversion Hin; subst.
+        apply (In_dkeys_dget keqb KS). congruence.
+  Qed.
+
+  (* ---------------------------------------------------------------- lower-cased views, == *)
+  Lemma lower_items_get items lk :
+    get (lower_items keqb lower items) lk =
+    match LW items lk with Some e => Some (snd e) | None => None end.
+  Proof.
+    unfold lower_items. rewrite (dget_dmerge keqb KS). cbn.
+    rewrite (dlast_map_val keqb (fun kv : K * V => lower (fst kv)) (@snd K V)).
+    unfold LW. destruct (dlast keqb _ lk); reflexivity.
+  Qed.
+
+  Lemma lower_items_nodup (items : list (K * V)) : NoDup (dkeys (lower_items keqb lower items)).
+  Proof. unfold lower_items. apply (NoDup_dmerge keqb KS). constructor. Qed.
+
+  Lemma s_as_lower_get (s : smap K V) lk :
+    get (s_as_lower s) lk = match get s lk with Some e => Some (snd e) | None => None end.
+  Proof.
+    induction s as [|[a e] r IH]; cbn; [reflexivity|]. destruct (keqb a lk); [reflexivity | exact IH].
+  Qed.
+
+  Lemma s_as_lower_keys (s : smap K V) : dkeys (s_as_lower s) = dkeys s.
+  Proof. unfold dkeys, s_as_lower. rewrite map_map. reflexivity. Qed.
+
+  Lemma as_lower_agree b s lk : Rel b s -> get (b_as_lower keqb lower b) lk = get (s_as_lower s) lk.
+  Proof.
+    intros [Hi [Hs Hl]]. unfold b_as_lower.
+    now rewrite lower_items_get, s_as_lower_get, LW_self, Hl.
+  Qed.
+
+  Lemma H_as_lower_body b s : Rel b s -> Permutation (b_as_lower keqb lower b) (s_as_lower s).
+  Proof.
+    intros HR. pose proof HR as [Hi [Hs Hl]].
+    assert (N1 : NoDup (dkeys (b_as_lower keqb lower b))) by apply lower_items_nodup.
+    assert (N2 : NoDup (dkeys (s_as_lower s))) by (rewrite s_as_lower_keys; apply Hs).
+    apply NoDup_Permutation; [now apply NoDup_pairs | now apply NoDup_pairs |].
+    intros [lk v]. split; intros Hin.
+    - apply (In_dget keqb KS _ _ _ N1) in Hin. rewrite (as_lower_agree lk HR) in Hin.
+      now apply (dget_In keqb KS).
+    - apply (In_dget keqb KS _ _ _ N2) in Hin. rewrite <- (as_lower_agree lk HR) in Hin.
+      now apply (dget_In keqb KS).
+  Qed.
+
+  Lemma bool_eq_iff (x y : bool) : (x = true <-> y = true) -> x = y.
+  Proof. destruct x, y; intuition congruence. Qed.
+
+  Lemma H_eq_body a1 a2 b1 b2 : Rel a1 a2 -> Rel b1 b2 ->
+    b_eq keqb lower veqb a1 b1 = deqb keqb veqb (s_as_lower a2) (s_as_lower b2).
+  Proof.
+    intros Ha Hb. unfold b_eq. apply bool_eq_iff.
+    rewrite !(deqb_true_iff keqb KS veqb veqb_spec);
+      try apply lower_items_nodup; try (rewrite s_as_lower_keys; first [apply Ha | apply Hb]).
+    split; intros H k.
+    - rewrite <- (as_lower_agree k Ha), <- (as_lower_agree k Hb). apply H.
+    - rewrite (as_lower_agree k Ha), (as_lower_agree k Hb). apply H.
+  Qed.
+
+  Lemma H_eq_plain_body b s items : Rel b s -> is_dict keqb items = true ->
+    b_eq_plain keqb lower veqb b items =
+    deqb keqb veqb (s_as_lower s) (s_as_lower (s_writes keqb lower [] items)).
+  Proof.
+    intros HR Hd. apply nodupb_NoDup in Hd. unfold b_eq_plain.
+    rewrite (dmerge_dict keqb KS [] items) by exact Hd. cbn [app].
+    assert (Hw : SInv (s_writes keqb lower [] items)) by apply SInv_writes, SInv_nil.
+    apply bool_eq_iff.
+    rewrite !(deqb_true_iff keqb KS veqb veqb_spec);
+      try apply lower_items_nodup; try (rewrite s_as_lower_keys; first [apply HR | apply Hw]).
+    assert (G : forall k, get (lower_items keqb lower items) k =
+                          get (s_as_lower (s_writes keqb lower [] items)) k).
+    { intros k. rewrite lower_items_get, s_as_lower_get, s_writes_get. cbn.
+      destruct (LW items k); reflexivity. }
+    split; intros H k.
+    - rewrite <- (as_lower_agree k HR), <- G. apply H.
+    - rewrite (as_lower_agree k HR), G. apply H.
+  Qed.
+
+  (* ---------------------------------------------------------------- the refinement *)
+  Theorem refines ops :
+    in_domain keqb lower ops = true ->
+    Forall2 (@obs_equiv K V)
+            (run (body_iface keqb lower veqb) ops) (run (spec_iface keqb lower veqb) ops).
+  Proof.
+    apply (@run_sim K V keqb lower _ _ (body_iface keqb lower veqb) (spec_iface keqb lower veqb) Rel);
+      cbn [i_init i_from i_combine i_combine_lower i_set i_del i_del_lower i_get i_get_lower i_len
+           i_iter i_as_lower i_eq i_eq_plain body_iface spec_iface].
+    - exact H_init_body.
+    - exact H_from_body.
+    - exact H_combine_body.
+    - exact H_combine_lower_body.
+    - intros; now apply H_set_body.
+    - intros a1 a2 k HR. unfold b_del. now apply H_del_lower_body.
+    - intros; now apply H_del_lower_body.
+    - intros a1 a2 k HR. unfold b_get. now apply H_get_lower_body.
+    - intros; now apply H_get_lower_body.
+    - exact H_len_body.
+    - exact H_iter_body.
+    - exact H_as_lower_body.
+    - exact H_eq_body.
+    - exact H_eq_plain_body.
+  Qed.
+End BodyProofs.
